@@ -32,7 +32,7 @@ impl Prop for P {
         }
     }
     fn cases(tier: Tier) -> u64 {
-        tier.pick(90_000, 900_000)
+        tier.pick(90_000, 300_000)
     }
     fn fixed_cases(tier: Tier) -> Vec<Case> {
         // Exhaustive sweep of the alignment between the fast path's 4096-byte look-ahead chunks and the
